@@ -3,7 +3,7 @@ import XrsVerif.Proofs.ILProxLines
   Proofs/ILProxNumpy.lean -- step 4 (end): the two passes of the generated `_process._process_numpy` are the model's
   `tdN` / `buN`, the whole program refines `Prox.run`; `proxAt` / `allocAt` are read off `img_distance` / `output_img`.
 -/
-namespace XrsVerif.IL
+namespace XrsVerif.IL.Px
 open XrsVerif XrsVerif.Prox
 variable {F : Type} [Fl F]
 set_option linter.unusedSectionVars false
@@ -422,4 +422,4 @@ theorem processNumpy_refines (s0 : State F) (fuel : Nat) (inp : PNInput c emb tg
   simp only [Prog.run, processNumpy_is_template]
   exact pnBody_refines s0 fuel inp
 
-end XrsVerif.IL
+end XrsVerif.IL.Px
